@@ -444,6 +444,27 @@ def deep_frames_program(rng):
     return "".join(L)
 
 
+def alias_program(rng):
+    """arrays are handles: a function that hands its array parameter back returns the caller's own array, so a store through one
+    name is seen through the other (arrays built by a literal, by array_new, by pushes; written before and after the call)"""
+    hi, k = rng.randint(20, 60), rng.randint(1, 9)
+    pre = ("fn clampall(xs: array<int>, hi: int) -> array<int> {\n    let mut i: int = 0\n    while (< i (array_length xs)) {\n        if (> (at xs i) hi) {\n            (array_set xs i hi)\n        } else {\n            (print \"\")\n        }\n        set i (+ i 1)\n    }\n    return xs\n}\n"
+           "shadow clampall { assert (== (at (clampall [5, 70] 50) 1) 50) }\n"
+           "fn same(xs: array<int>) -> array<int> {\n    return xs\n}\nshadow same { assert (== (array_length (same [1])) 1) }\n"
+           "fn total(xs: array<int>) -> int {\n    let mut s: int = 0\n    for i in (range 0 (array_length xs)) {\n        set s (+ (* s 3) (at xs i))\n    }\n    return s\n}\nshadow total { assert (== (total [1, 2]) 5) }\n")
+    makers = [("lit", "[10, 80, 30, %d]" % k), ("new", "(array_new 4 %d)" % (hi + k)), ("pushed", None)]
+    fns, calls = [], []
+    for mk, init in makers:
+        for via, fn in (("clampall", "(clampall samples %d)" % hi), ("same", "(same samples)")):
+            for wr, rd in (("view", "samples"), ("samples", "view")):
+                name = "al_%s_%s_%s" % (mk, via, wr)
+                decl = ("    let samples: array<int> = %s\n" % init) if init else "    let mut samples: array<int> = []\n    set samples (array_push samples 90)\n    set samples (array_push samples %d)\n    set samples (array_push samples 7)\n" % k
+                fns.append((name, "fn %s() -> int {\n%s    let view: array<int> = %s\n    (array_set %s 0 %d)\n    (println (total %s))\n    (array_set %s 1 %d)\n    return (+ (total view) (total samples))\n}\n"
+                            % (name, decl, fn, wr, k, rd, rd, k + 1)))
+                calls.append((name, "(%s)" % name))
+    return pre + shadowed(fns, calls)
+
+
 def struct_order_program(rng):
     """struct definitions in an order that is not the dependency order, by-value nesting, several fields of the same struct type"""
     defs = ["struct Pt { x: int, y: int }",
